@@ -91,7 +91,7 @@ static std::string hinc_json(const HipView& a, const HipView& b) {
   double expect = (double)a.regs.size() / kxq, got = b.hip - a.hip;
   double rel = expect > 0 ? std::fabs(got - expect) / expect * 1e9 : 0;
   Ev x("x"); x.s = "{\"z\":0";
-  x.b("ooo", a.ooo).b("oooAfter", b.ooo).d("hipBefore", a.hip).d("hipAfter", b.hip).i("ppb", rel > 1e9 ? 1000000000LL : (long long)std::llround(rel));
+  x.b("ooo", a.ooo).b("oooAfter", b.ooo).d("hipBefore", a.hip).d("hipAfter", b.hip).i("ppb", qint(rel));
   x.s += "}";
   return x.s;
 }
@@ -106,7 +106,7 @@ static void emit_results3(int p, const hll_union& u) {
   hll_union v(u);
   (void)v.get_composite_estimate();
   for (int t : T3) rs.push_back(v.get_result(tt(t)));
-  auto rel = [](double a, double b) -> long long { double m = std::max(std::fabs(a), std::fabs(b)); if (m == 0) return 0; double d = std::fabs(a - b) / m * 1e12; return d > 1e9 ? 1000000000LL : (long long)std::llround(d); };
+  auto rel = [](double a, double b) -> long long { double m = std::max(std::fabs(a), std::fabs(b)); if (m == 0) return 0; if (!(m == m) || std::isinf(m)) return a == b ? 0 : 2000000000LL; double d = std::fabs(a - b) / m * 1e12; return qint(d); };
   std::string o = "[", dq = "[";
   for (size_t a = 0; a < rs.size(); a++) {
     if (a) { o += ","; dq += ","; }
@@ -122,6 +122,22 @@ static void emit_results3(int p, const hll_union& u) {
   Ev e("UResults3"); e.i("u", p).raw("rs", o + "]").raw("dq", dq + "]"); e.i("lgk", u.get_lg_config_k()).b("empty", u.is_empty()); e.emit();
 }
 
+static void scalars(Ev& e, const hll_union& u);
+// reset() returns the union to its original state: afterwards it must be indistinguishable from a NEW union of the same
+// lg_max_k - compared here through the compact images of get_result in all three types (and through everything that follows)
+static void emit_ureset(int p, hll_union& u, uint8_t lgmax) {
+  u.reset();
+  hll_union fresh(lgmax);
+  Ev e("UReset"); e.i("u", p);
+  std::string a = "[", b = "[";
+  for (int t : T3) {
+    auto x = u.get_result(tt(t)).serialize_compact(), y = fresh.get_result(tt(t)).serialize_compact();
+    Ev h("x"); h.s = ""; h.bytes("k", x.data(), x.size()); a += (a.size() > 1 ? "," : "") + h.s.substr(h.s.find(':') + 1);
+    Ev f("x"); f.s = ""; f.bytes("k", y.data(), y.size()); b += (b.size() > 1 ? "," : "") + f.s.substr(f.s.find(':') + 1);
+  }
+  e.raw("imgs", a + "]").raw("fresh", b + "]");
+  scalars(e, u); e.emit();
+}
 static void scalars(Ev& e, const hll_union& u) { e.i("lgk", u.get_lg_config_k()).b("empty", u.is_empty()); }
 
 int main(int argc, char** argv) {
@@ -350,7 +366,7 @@ int main(int argc, char** argv) {
           Ev e(counted ? "UItem" : "UItemIgnored"); e.i("u", p).str("ty", TYPES[it.type]);
           if (counted) e.raw("c", "[" + std::to_string(c.addr) + "," + std::to_string(c.val) + "]"); scalars(e, u); e.emit(); }
         keep(1);                                                        // after exactly one item
-        u.reset(); { Ev e("UReset"); e.i("u", p); scalars(e, u); e.emit(); }
+        emit_ureset(p, u, lgmax);
         keep(2);                                                        // right after reset()
         // continue result and restored copy with the same items
         for (int n = 0; n < 3; n++) {
@@ -383,7 +399,7 @@ int main(int argc, char** argv) {
       int last_raw = -1;
       for (size_t q = 0; q <= order.size(); q++) {
         if ((long)q == reset_at) {
-          u.reset(); { Ev e("UReset"); e.i("u", p); scalars(e, u); e.emit(); }
+          emit_ureset(p, u, lgmax);
           if (last_raw >= 0) {     // the very next update after reset(): the item the union saw last
             const Item& it = raw[last_raw]; Coupon c{0, 0}; bool counted = ref_coupon(it, c); do_update(u, it);
             Ev e(counted ? "UItem" : "UItemIgnored"); e.i("u", p).str("ty", TYPES[it.type]);
@@ -437,6 +453,27 @@ int main(int argc, char** argv) {
     // results fed back as inputs: get_result(HLL_4 | HLL_6 | HLL_8) of the three unions become sketches 10..12 and are presented,
     // with one of the original inputs, to a fourth union (lvalue / rvalue, random order, observers)
     if (rst_seg) {
+      // second life of a union: first life = a start_full_size source with lg_k == lg_max_k (adopted by lvalue or rvalue, alone or
+      // after a raw item), then reset(): THE fresh state (image of a new union), then fewer items than any promotion threshold
+      for (int w = 0; w < 2; w++) {
+        hll_sketch fs(lgmax, tt(T3[(w + rst_off) % 3]), true);
+        emit_new(22 + w, fs);
+        { std::vector<Item> items; long n = g.range(5, 40); for (long j = 0; j < n; j++) items.push_back(draw(g, universe)); feed(22 + w, fs, items); obs1(22 + w, fs); }
+        hll_union u6(lgmax);
+        { Ev e("UNew"); e.i("u", 6 + w).i("lgmaxk", lgmax); scalars(e, u6); e.emit(); }
+        auto item1 = [&](const Item& it) { Coupon c{0, 0}; bool counted = ref_coupon(it, c); do_update(u6, it);
+          Ev e(counted ? "UItem" : "UItemIgnored"); e.i("u", 6 + w).str("ty", TYPES[it.type]);
+          if (counted) e.raw("c", "[" + std::to_string(c.addr) + "," + std::to_string(c.val) + "]"); scalars(e, u6); e.emit(); };
+        if (w == 1) item1(draw(g, universe));
+        bool rvalue = (w + rst_off) % 2 == 0;
+        if (rvalue) { hll_sketch tmp(fs); u6.update(std::move(tmp)); } else u6.update(fs);
+        { Ev e("UUpdate"); e.i("u", 6 + w).i("src", 22 + w).b("rvalue", rvalue).b("srcOoo", false); scalars(e, u6); e.emit(); }
+        emit_ureset(6 + w, u6, lgmax);
+        long n2 = g.range(1, 6);
+        for (long j = 0; j < n2; j++) { Item it; do it = draw(g, universe); while (it.type == 10 && it.sv.empty()); item1(it); }
+        emit_results3(6 + w, u6);
+        { Ev e("UEst"); e.i("u", 6 + w); est_fields(e, u6); scalars(e, u6); e.emit(); }
+      }
       // the continued results and their continued restored copies as operands of two further unions: same outcome
       std::unique_ptr<hll_union> ux[2];
       for (int w = 0; w < 2; w++) {
@@ -459,7 +496,7 @@ int main(int argc, char** argv) {
         Ev x("x"); x.s = "{\"u\":" + std::to_string(4 + w); x.i("mode", v.mode).d("cest", ce[w]).d("rcest", rc[w]); x.s += "}";
         if (w) o += ","; o += x.s;
       }
-      auto rel = [](double a, double b) -> long long { double m = std::max(std::fabs(a), std::fabs(b)); if (m == 0) return 0; double d = std::fabs(a - b) / m * 1e12; return d > 1e9 ? 1000000000LL : (long long)std::llround(d); };
+      auto rel = [](double a, double b) -> long long { double m = std::max(std::fabs(a), std::fabs(b)); if (m == 0) return 0; if (!(m == m) || std::isinf(m)) return a == b ? 0 : 2000000000LL; double d = std::fabs(a - b) / m * 1e12; return qint(d); };
       std::string dq = "[";
       for (int a = 0; a < 2; a++) { dq += a ? ",[" : "["; for (int b = 0; b < 2; b++) { if (b) dq += ","; dq += "[" + std::to_string(rel(ce[a], ce[b])) + "," + std::to_string(rel(rc[a], rc[b])) + "]"; } dq += "]"; }
       Ev("UCompare").raw("objs", o + "]").raw("dq", dq + "]").b("restored", true).emit();
@@ -512,7 +549,7 @@ int main(int argc, char** argv) {
       // pairwise relative differences of the estimates in units of 10^-12 (DESIGN C03: unit conversion of observations)
       double ce[3], rc[3];
       for (int p = 0; p < 3; p++) { ce[p] = un[p]->get_composite_estimate(); rc[p] = un[p]->get_result(HLL_8).get_composite_estimate(); }
-      auto rel = [](double a, double b) -> long long { double m = std::max(std::fabs(a), std::fabs(b)); if (m == 0) return 0; double d = std::fabs(a - b) / m * 1e12; return d > 1e9 ? 1000000000LL : (long long)std::llround(d); };
+      auto rel = [](double a, double b) -> long long { double m = std::max(std::fabs(a), std::fabs(b)); if (m == 0) return 0; if (!(m == m) || std::isinf(m)) return a == b ? 0 : 2000000000LL; double d = std::fabs(a - b) / m * 1e12; return qint(d); };
       std::string dq = "[";
       for (int a = 0; a < 3; a++) { dq += a ? ",[" : "["; for (int b = 0; b < 3; b++) { if (b) dq += ","; dq += "[" + std::to_string(rel(ce[a], ce[b])) + "," + std::to_string(rel(rc[a], rc[b])) + "]"; } dq += "]"; }
       Ev("UCompare").raw("objs", o + "]").raw("dq", dq + "]").emit();
